@@ -90,7 +90,10 @@ pub fn self_check(files: &[CorpusFile]) -> (usize, Vec<String>) {
         if f.valid {
             match &d.verdict {
                 Verdict::Valid | Verdict::Undecided(U1::C) => {
-                    let exp = f.expected.as_ref().unwrap();
+                    let exp = match f.expected.as_ref() {
+                        Some(e) => e,
+                        None => continue,
+                    };
                     let t = d.tree.as_ref().unwrap();
                     let ok = exp.diff(t, KeyOrder::Any).is_none() || d.tree_nl.as_ref().map_or(false, |t2| exp.diff(t2, KeyOrder::Any).is_none());
                     if !ok {
